@@ -179,8 +179,39 @@ func Select(a, i T) T {
 
 func Store(a, i, v T) T { return App(a.Sort, "store", a, i, v) }
 
-func Add(a, b T) T { return App(SInt, "+", a, b) }
-func Sub(a, b T) T { return App(SInt, "-", a, b) }
+func Add(a, b T) T {
+	if x, y, ok := twoLits(a, b); ok {
+		return IntBig(new(big.Int).Add(x, y))
+	}
+	return App(SInt, "+", a, b)
+}
+func Sub(a, b T) T {
+	if x, y, ok := twoLits(a, b); ok && x.Cmp(y) >= 0 {
+		return IntBig(new(big.Int).Sub(x, y))
+	}
+	return App(SInt, "-", a, b)
+}
+
+// twoLits: both terms are plain non-negative integer literals (constant folding of slice bounds).
+func twoLits(a, b T) (*big.Int, *big.Int, bool) {
+	isLit := func(s string) bool {
+		if s == "" || len(s) > 30 {
+			return false
+		}
+		for _, c := range s {
+			if c < '0' || c > '9' {
+				return false
+			}
+		}
+		return true
+	}
+	if !isLit(a.S) || !isLit(b.S) {
+		return nil, nil, false
+	}
+	x, _ := new(big.Int).SetString(a.S, 10)
+	y, _ := new(big.Int).SetString(b.S, 10)
+	return x, y, true
+}
 func Mul(a, b T) T { return App(SInt, "*", a, b) }
 func Le(a, b T) T  { return App(SBool, "<=", a, b) }
 func Lt(a, b T) T  { return App(SBool, "<", a, b) }
